@@ -265,7 +265,10 @@ def run(ctx):
     res.extra["slowest_request_s"] = round(slowest, 3)
     res.sample({"request": b"/mail/box.mbox|/MBOX-MESSAGE/9999\r\n", "expect": "not-found in the protocol's form"})
     res.sample({"request": b"gemini://h/a%0d%0ab\r\n", "expect": "one status line"})
-    res.degraded = list(pyg.degraded)
+    # end to end: Model/Serve.answer (request line -> whole response) vs the real server, byte for byte
+    import sitecorr
+    sitecorr.compare_answers(ctx, res, ctx.n(3, 30), "C03")
+    res.degraded = list(pyg.degraded) + [d for d in res.degraded if d not in pyg.degraded]
     return res
 
 
